@@ -315,6 +315,10 @@ type op struct {
 	consumer bool
 	// emptyOK: the fault-free control legitimately prints nothing (inner join with an empty side)
 	emptyOK bool
+	// needsOptimizer: the fault sits in a WHERE above a join whose other side is empty; it is consumed
+	// only when the optimizer pushes the filter into the faulty branch (unoptimized, the join yields no
+	// row and the filter is never evaluated, so exit 0 is correct there): not generated with --optimize=false.
+	needsOptimizer bool
 }
 
 // cpred: a predicate over an operator's output column that evaluates panic('x') only for the row
@@ -502,10 +506,10 @@ func ops() []op {
 		}})
 	}
 	list = append(list,
-		op{name: "inner-join-direct/other-side-empty/fault-right", swallower: never, emptyOK: true, sql: func(x src) string {
+		op{name: "inner-join-direct/other-side-empty/fault-right", swallower: never, emptyOK: true, needsOptimizer: true, sql: func(x src) string {
 			return fmt.Sprintf("SELECT a.id AS aid, b.%s AS bid FROM %s JOIN %s b ON a.g = b.%s WHERE %s", x.id, emptySide(x, "a"), x.table, x.g, x.pred("b"))
 		}},
-		op{name: "inner-join-direct/other-side-empty/fault-left", swallower: never, emptyOK: true, sql: func(x src) string {
+		op{name: "inner-join-direct/other-side-empty/fault-left", swallower: never, emptyOK: true, needsOptimizer: true, sql: func(x src) string {
 			return fmt.Sprintf("SELECT a.id AS aid, b.%s AS bid FROM %s b JOIN %s ON a.g = b.%s WHERE %s", x.id, x.table, emptySide(x, "a"), x.g, x.pred("b"))
 		}},
 	)
@@ -751,6 +755,9 @@ func Run(c *core.Ctx) core.FinishOpts {
 					continue
 				}
 				for _, opt := range opts {
+					if o.needsOptimizer && !opt {
+						continue
+					}
 					for _, p := range ps {
 						dir := fixture[f.name+"|"+p.name]
 						id := fmt.Sprintf("%s|%s|%s|%s|opt=%v", f.name, o.name, mode, p.name, opt)
